@@ -31,7 +31,7 @@ RULE = ('every operand tuple over the point set {k*G} (k=0 is infinity) and the 
         'each law is evaluated on the outputs of the real instructions')
 BOUND = {
     'quick': 'points k*G1,k*G2 for k in {0,1,2,3,r-1}; MUL scalars {0,1,2,3,r-1,r-2,(r+1)/2}; Fr set of 8 incl. 0,1,r-1; '
-             'all pairs for ADD, all triples for associativity, all (P,Q,k) and (P,a,b) for distributivity; '
+             'all pairs for ADD, all triples for associativity, all (P,Q,k) and (P,a,b) with k,a,b in {0,1,2,r-1} for distributivity; '
              'PAIRING_CHECK: empty list, all 16 single pairs and all 256 two-pair lists over coefficients {0,1,2,-1}',
     'thorough': 'points k in {0,1,2,3,4,5,7,r-1,r-2,(r-1)/2}; MUL scalars 10; Fr set of 12; same products; '
                 'PAIRING_CHECK: all single pairs and all 2401 two-pair lists over {0,1,2,3,-1,-2,-3}, 216 three-pair lists',
@@ -64,6 +64,11 @@ def mul_scalars(tier):
     if tier == 'quick':
         return [0, 1, 2, 3, R - 1, R - 2, (R + 1) // 2]
     return [0, 1, 2, 3, 5, 2 ** 64, R - 1, R - 2, (R + 1) // 2, (R - 1) // 2]
+
+
+def dist_scalars(tier):
+    """scalars used in the two distributivity laws (each case costs three MULs)"""
+    return [0, 1, 2, R - 1] if tier == 'quick' else mul_scalars(tier)
 
 
 def fr_set(tier):
@@ -482,7 +487,7 @@ def cases_of(spec, tier):
             yield {'check': 'laws', 'ty': ty, 'law': 'distrib_point', 'a': a, 'b': b, 'c': k}
     elif kind == 'dists':
         ty, a, s1 = spec[1], spec[2], spec[3]
-        for s2 in S:
+        for s2 in dist_scalars(tier):
             yield {'check': 'laws', 'ty': ty, 'law': 'distrib_scalar', 'a': a, 'b': s1, 'c': s2}
     elif kind == 'fr':
         for a in F:
@@ -531,8 +536,8 @@ def shards(tier, seed):
         sh.append(('basic', ty))
         sh += [('assoc', ty, a) for a in P]
         sh += [('mul', ty, a) for a in P]
-        sh += [('distp', ty, a, k) for a in P for k in S]
-        sh += [('dists', ty, a, s1) for a in P for s1 in S]
+        sh += [('distp', ty, a, k) for a in P for k in dist_scalars(tier)]
+        sh += [('dists', ty, a, s1) for a in P for s1 in dist_scalars(tier)]
     sh += [('frlaws', a) for a in F]
     pl = pairing_lists(tier)
     # cost-balanced chunks: a pair with both coefficients non-zero costs one Miller loop + final exponentiation
